@@ -87,6 +87,18 @@ def tree_case(draw):
                 t = draw(st.sampled_from(files))
                 if t["pkg"]:
                     f["imports"].append({"pkg": list(t["pkg"]), "sym": None})
+    # one physical file reached under two different qualified names: fully qualified from the entry, and relative to the
+    # directory of an importer that sits in a prefix package (the second name does not match the declared package, and
+    # that must be diagnosed whether or not the file is already loaded)
+    if draw(st.integers(0, 3)) == 0 and not entry["pkg"]:
+        f = add("E", ["p"], draw(st.sampled_from(NAMES[:4])))
+        t = add("E", draw(st.sampled_from([["p", "q"], ["p", "r"], ["p", "q", "r"]])), draw(st.sampled_from(NAMES[:4])))
+        if f is not None and t is not None:
+            first = [{"pkg": list(t["pkg"]), "sym": t["name"]}, {"pkg": list(f["pkg"]), "sym": f["name"]}]
+            if draw(st.booleans()):
+                first.reverse()
+            entry["imports"] = first + entry["imports"]
+            f["imports"].append({"pkg": list(t["pkg"][1:]), "sym": t["name"] if draw(st.booleans()) else None, "relative": True})
     mains = draw(st.sampled_from([1] * 8 + [0, 2]))
     for f in files[:mains]:
         f["main"] = True
